@@ -8,7 +8,9 @@ import clcommon  # noqa: E402
 ASSUMPTIONS = [
     "the processor goroutine is the only caller of Receive, the callback and the acknowledgement writes; its steps are the ones between two calls on Conn/Session/Callback (control points of Client/Client.v)",
     "a handshake is identified by the packet id in the session's incoming store; deliveries the callback rejects are not counted",
-    "C10_exactly_once and C10_pubrel_answered are refuted for the current tree (open findings); the partial theorems carry the rest",
+    "C10_exactly_once and C10_pubrel_answered are refuted for the current tree (open findings KF-C10-a/b); the partial theorems carry the rest",
+    "a second delivery is attributed to KF-C10-b only if a PUBCOMP write for that id failed after the first delivery and a new Client on the same session came before the second; a failing DeletePacket(Incoming) (session failure, outside C10's quantifier, injected for conformance only) is not judged",
+    "clause scanners over the observed event sequence (TraceScan.v: scan_ack, scan_hs/hs_twice, scan_noack) are proved to accept every trace the model accepts (scan_hs: its table equals the model's ghost table)",
 ]
 
 CLAUSES = {}
